@@ -27,6 +27,12 @@ THEOREMS = [
     "PyTrie.Props.C07.raw_delete_missing_on_path",
     "PyTrie.Props.C07.raw_traverse_partial",
     "PyTrie.Props.C07.raw_get_partial",
+    "PyTrie.Props.C07.rawT_set_agrees",
+    "PyTrie.Props.C07.rawT_delete_agrees",
+    "PyTrie.Props.C07.rawT_op_agrees",
+    "PyTrie.Props.C07.raw_failed_set_writes_nothing",
+    "PyTrie.Props.C07.raw_failed_delete_writes_nothing",
+    "PyTrie.Props.C07.raw_failed_op_leaves_db",
 ]
 RULE = ("tries built by generated histories (prune on/off), then a subset of node bodies removed from the database (every "
         "subset for small tries, random subsets otherwise, single nodes, everything), then one operation — get, exists, set, "
